@@ -167,7 +167,8 @@ def build_harness(scr, tags=("verif",), cmd="replay", race=False, cover=False):
     if race:
         args.append("-race")
     if cover:
-        args += ["-cover", "-coverpkg=gorgonia.org/tensor/..."]
+        # the main package has to be among the covered packages or no counter file is written at exit
+        args += ["-cover", "-coverpkg=verif/harness/...,gorgonia.org/tensor/..."]
     args.append("./cmd/" + cmd)
     t0 = time.time()
     p = subprocess.run(args, cwd=HARNESS, env=GOENV, capture_output=True, text=True)
